@@ -646,6 +646,63 @@ def serve(app, env):
     return [rec.get('n'), rec.get('status'), sorted(map(list, rec.get('headers', []))), body.decode('latin1')]
 
 
+class EagerIds:
+    """The address of an object is the environment's choice: the language promises only that two objects alive at the same
+    time have different ids.  This chooser is the environment action "hand out the smallest number no live object holds",
+    i.e. a freed address is reused at once -- legal for any allocator, and the worst case for code that keeps something under
+    id(x) longer than x lives.  Installed as the name `id` in the globals of every ombott module (module globals shadow the
+    builtin), removed afterwards.  Objects that cannot be weakly referenced keep their real id, moved out of the small range."""
+
+    def __init__(self):
+        import builtins
+        self._real = builtins.id
+        self.live = {}
+        self.free = []
+        self.next = 1
+        self.handed = 0
+        self.reused = 0
+        self._refs = {}
+
+    def __call__(self, obj):
+        import heapq
+        import weakref
+        rid = self._real(obj)
+        s = self.live.get(rid)
+        if s is not None:
+            return s
+        try:
+            self._refs[rid] = weakref.ref(obj, lambda _r, rid=rid: self._release(rid))
+        except TypeError:
+            return (1 << 62) + rid
+        if self.free:
+            s = heapq.heappop(self.free)
+            self.reused += 1
+        else:
+            s = self.next
+            self.next += 1
+        self.live[rid] = s
+        self.handed += 1
+        return s
+
+    def _release(self, rid):
+        import heapq
+        self._refs.pop(rid, None)
+        s = self.live.pop(rid, None)
+        if s is not None:
+            heapq.heappush(self.free, s)
+
+    def install(self):
+        import sys
+        self._mods = [m for n, m in list(sys.modules.items()) if (n == 'ombott' or n.startswith('ombott.')) and m is not None]
+        for m in self._mods:
+            m.__dict__['id'] = self
+        return self
+
+    def remove(self):
+        for m in self._mods:
+            m.__dict__.pop('id', None)
+
+
 def fresh_config(config=None):
     """A configuration whose error responses are not the process-wide shared objects of DefaultConfig.errors_map."""
     from ombott import HTTPError
